@@ -227,3 +227,83 @@ func firstN(s string, n int) string {
 	}
 	return s
 }
+
+// engine_seq: ONE engine instance parses and runs several workflow trees one after the other, each from its own context
+// directory (extra.sequence = [{files, input_yaml, rel_dir}]). One run entry per element (tag "seq<i>"); a refusal by
+// Parse is that entry's error with type "parse". extra.cwd_changed lists the elements after which the working directory
+// of the process was not what it was before.
+type engineSeqItem struct {
+	Files     map[string]string `json:"files"`
+	InputYAML string            `json:"input_yaml"`
+	RelDir    bool              `json:"rel_dir"`
+}
+
+func init() {
+	modes["engine_seq"] = func(c *Case, res *Result) {
+		var seq []engineSeqItem
+		if v, ok := c.Extra["sequence"]; ok {
+			if err := json.Unmarshal(v, &seq); err != nil {
+				res.ParseErr = "harness: bad sequence: " + err.Error()
+				return
+			}
+		}
+		engine.DefaultDeployerRegistry = deployerregistry.New(deployer.Any(splugin.NewFactory()))
+		scratch, err := os.MkdirTemp(".", "engseq-")
+		if err != nil {
+			res.ParseErr = "harness: " + err.Error()
+			return
+		}
+		scratch, _ = filepath.Abs(scratch)
+		defer os.RemoveAll(scratch)
+		oldwd, _ := os.Getwd()
+		defer func() { _ = os.Chdir(oldwd) }()
+		_ = os.Chdir(scratch)
+		flow, err := engine.New(engineConfig())
+		if err != nil {
+			res.ParseErr = "harness: engine.New: " + err.Error()
+			return
+		}
+		cwdChanged := []int{}
+		for i, it := range seq {
+			tag := "seq" + itoa(i)
+			ctxDir := filepath.Join(scratch, "ctx"+itoa(i))
+			for name, content := range it.Files {
+				p := filepath.Join(ctxDir, name)
+				_ = os.MkdirAll(filepath.Dir(p), 0o755)
+				_ = os.WriteFile(p, []byte(content), 0o644)
+			}
+			before, _ := os.Getwd()
+			dirArg := ctxDir
+			if it.RelDir {
+				if rel, rerr := filepath.Rel(before, ctxDir); rerr == nil {
+					dirArg = rel
+				}
+			}
+			rr := RunResult{Tag: tag}
+			fc, err := loadfile.NewFileCacheUsingContext(dirArg, map[string]string{"workflow": "workflow.yaml"})
+			if err == nil {
+				err = fc.LoadContext()
+			}
+			if err != nil {
+				rr.Err, rr.ErrType = err.Error(), "load"
+			} else if wf, perr := flow.Parse(fc, "workflow"); perr != nil {
+				rr.Err, rr.ErrType = perr.Error(), "parse"
+			} else {
+				outID, outData, _, rerr := wf.Run(context.Background(), []byte(it.InputYAML))
+				rr.OutID = outID
+				if rerr != nil {
+					rr.Err, rr.ErrType = rerr.Error(), errType(rerr)
+				} else {
+					rr.Data = toJSON(outData)
+				}
+			}
+			after, _ := os.Getwd()
+			if after != before {
+				cwdChanged = append(cwdChanged, i)
+				_ = os.Chdir(before)
+			}
+			res.Runs = append(res.Runs, rr)
+		}
+		res.Extra = map[string]any{"cwd_changed": cwdChanged}
+	}
+}
